@@ -177,6 +177,100 @@ pub fn one_point_to(which: &str, cache: &RefCache, mg: &MoveGenerator, rep: &Rep
     }
 }
 
+/// How the interrupted search is started through the real command handler, for a budget of N ms
+/// (= N nodes of the node clock). The clock forms exercise calculate_move_time and whatever the
+/// handler does around the search (allowances, extensions) that a direct call never reaches.
+pub const COMMAND_MODES: &[&str] = &["movetime", "clock", "clock+increment"];
+
+pub fn go_for_budget(mode: &str, n: u64) -> String {
+    match mode {
+        "movetime" => format!("go movetime {}", n),
+        // no increment: (time - 5000) / 25 = n, well below time / 2
+        "clock" => format!("go wtime {t} btime {t} winc 0 binc 0", t = 5000 + 25 * n),
+        // the increment dominates and the cap time / 2 = n decides
+        _ => format!("go wtime {t} btime {t} winc {t} binc {t}", t = 2 * n),
+    }
+}
+
+/// One crash point delivered by a go command: fresh engine, `position fen`, the go command whose
+/// budget makes the deadline fall at node N, then a completed search of the same position to
+/// depth `fd` on the same searcher, compared with the reference value. Only for N smaller than
+/// the node count at which iteration `fd` completes (the caller guarantees it), so that no
+/// legitimately completed deeper iteration can answer the later search.
+pub fn command_point(cache: &RefCache, mg: &MoveGenerator, rep: &Report, name: &str, fen: &str, b: &Board, fd: u8, mode: &str, n: u64) -> bool {
+    if rep.violation_count.load(Ordering::Relaxed) >= 5 {
+        return false;
+    }
+    crate::timer::verif::set_node_clock(Some(1));
+    let go = go_for_budget(mode, n);
+    let args = vec!["c06-cmd".to_string(), "--fen".into(), fen.to_string(), "--final-depth".into(), fd.to_string(), "--mode".into(), mode.to_string(), "--at".into(), n.to_string()];
+    let _job = crate::watch::enter(
+        format!("C06 fen={} final-depth={} {:?} no-answer", fen, fd, go),
+        format!("{} ({:?}): {:?} did not answer after {} s of wall time", name, fen, go, crate::watch::LIMIT_S),
+        args.clone(),
+    );
+    let r = guard(|| {
+        let mut fl = crate::uci::Flounder::new();
+        crate::search::verif::set_dry_run(false);
+        fl.verif_handle_command(&format!("position fen {}", fen));
+        let rep0 = fl.verif_searcher().verif_repetition_len();
+        fl.verif_handle_command(&go);
+        let budget = crate::search::verif::last_go().and_then(|(_, t)| t).map(|d| d.as_millis() as u64);
+        let rep1 = fl.verif_searcher().verif_repetition_len();
+        let (score, mv) = fl.verif_searcher().find_best_move(b, fd, None);
+        (budget, rep0, rep1, score, mv)
+    });
+    match r {
+        Err(e) => {
+            rep.violation(format!("C06 fen={} final-depth={} {:?} panic", fen, fd, go), format!("{} ({:?}) {:?}: {}", name, fen, go, e), args, J::Null);
+            false
+        }
+        Ok((budget, rep0, rep1, score, mv)) => {
+            if budget != Some(n) {
+                // the handler derived another budget than this harness intended (C12's business);
+                // the deadline then fell elsewhere and the precondition N < T is not known to hold
+                return false;
+            }
+            if rep0 != rep1 {
+                rep.violation(
+                    format!("C06 fen={} {:?} history-length", fen, go),
+                    format!("{} ({:?}): after {:?} the game-history stack holds {} entries, before it held {}", name, fen, go, rep1, rep0),
+                    args.clone(),
+                    J::Null,
+                );
+            }
+            if let Err(text) = compare(cache, mg, b, fd, score, mv) {
+                rep.violation(
+                    format!("C06 fen={} final-depth={} mode={} value-after-interrupted-go", fen, fd, mode),
+                    format!("{} ({:?}): {:?} (interrupted at node {}), then a completed search to depth {} on the same engine: {}", name, fen, go, n, fd, text),
+                    args,
+                    J::obj().set("score", score).set("move", mv.map(|m| m.to_algebraic())),
+                );
+            }
+            true
+        }
+    }
+}
+
+pub fn replay_command_point(fen: &str, fd: u8, mode: &str, n: u64) -> i32 {
+    let rep = Report::new("C06", "quick", 0);
+    crate::watch::start_replay();
+    let mg = MoveGenerator::new();
+    let cache = RefCache::new(200_000);
+    let b = board(fen);
+    command_point(&cache, &mg, &rep, "replay", fen, &b, fd, mode, n);
+    let v = rep.violations.lock().unwrap();
+    for x in v.iter() {
+        println!("REPLAY-VIOLATION {} :: {}", x.sig, x.text);
+    }
+    if v.is_empty() {
+        println!("REPLAY-OK C06 command point {} {} at {}", fen, mode, n);
+        0
+    } else {
+        1
+    }
+}
+
 /// Game-history content probe: with a recorded game history in place (two successors of the
 /// root pushed, one of them twice), the answers of the real repetition query for the root and
 /// four of its successors, and the stack length, must be the same before and after a search
@@ -655,6 +749,20 @@ pub fn run(which: &'static str, tier: &str, seed: u64, out: &str, engine_plain: 
                 evaluations += pairs_done;
                 nontrivial += pr.iter().filter(|r| r.deadline_hit).count() as u64;
             }
+            // the same crash points delivered through the go command (three ways of stating the budget)
+            let mut command_done = 0u64;
+            if which == "C06" && d <= 3 && (t <= 700 || thorough) {
+                let mut cps: Vec<(&str, u64)> = Vec::new();
+                for mode in COMMAND_MODES {
+                    for n in 0..t {
+                        cps.push((mode, n));
+                    }
+                }
+                let cr: Vec<bool> = par_map(&cps, |(mode, n)| command_point(&cache, &mg, &rep, name, fen, &b, d, mode, *n));
+                command_done = cr.iter().filter(|x| **x).count() as u64;
+                evaluations += command_done;
+                nontrivial += command_done;
+            }
             let mut deeper_done = 0u64;
             let mut history_done = 0u64;
             if which == "C06" && (t <= 2500 || thorough) {
@@ -689,6 +797,7 @@ pub fn run(which: &'static str, tier: &str, seed: u64, out: &str, engine_plain: 
                     .set("double_interruption_pairs", pairs_done)
                     .set("crash_points_with_completed_search_one_ply_deeper", deeper_done)
                     .set("crash_points_with_recorded_game_history_probed", history_done)
+                    .set("crash_points_delivered_by_go_commands", command_done)
                     .set("max_nodes_after_deadline", mo),
             );
         }
